@@ -827,6 +827,11 @@ class Record:
                              acc=m['acc'], ov=[S[o] for o in m.get('ov', [])]) for m in raw['methods']]
 
 
+def _lam_key(cls):
+    m = re.search(r'([^/ ]+:\d+:\d+)\)', cls)
+    return m.group(1) if m else cls
+
+
 class FactBase:
     """Union of the facts of several (unit, configuration) pairs of ONE configuration family.
 
@@ -890,6 +895,17 @@ class FactBase:
                 m.setdefault(f.qn, []).append(f)
             self._by_qn = m
         return self._by_qn.get(qn, [])
+
+    def lambda_ops(self, cls):
+        """operator() bodies of the closure type `cls` ("(lambda <file>:<line>:<col>)"); the root prefix of probe files
+        differs between the type spelling and the record name, so the match is on basename:line:col"""
+        if getattr(self, '_lam_ops', None) is None:
+            m = {}
+            for f in self.fn.values():
+                if f.n == 'operator()' and (f.cls or '').startswith('(lambda '):
+                    m.setdefault(_lam_key(f.cls), []).append(f)
+            self._lam_ops = m
+        return self._lam_ops.get(_lam_key(cls), [])
 
     def find(self, pattern):
         r = re.compile(pattern)
